@@ -45,11 +45,11 @@ type history struct {
 
 // a plan yields the successive states of the tree; it is either scripted or random
 type plan struct {
-	kind    string
-	cacheOn bool
-	initial *e2e.C11Spec
-	next    func(i int, cur *e2e.C11Spec, past []*e2e.C11Spec) move
-	steps   int
+	kind       string
+	cacheOn    bool
+	initial    *e2e.C11Spec
+	next       func(i int, cur *e2e.C11Spec, past []*e2e.C11Spec) move
+	steps      int
 	initialInv e2e.C11Inv // how the first invocation is made
 }
 
@@ -180,7 +180,17 @@ func genCmd(r *lib.Rng, s *e2e.C11Spec, t *e2e.C11Test) {
 }
 
 func genOp(r *lib.Rng, s *e2e.C11Spec, t *e2e.C11Test) (string, string) {
-	switch r.Intn(12) {
+	switch r.Intn(15) {
+	case 11, 12, 13:
+		// the regular file AT one destination holds a word: sensitive to which content lies where
+		cands := []string{}
+		for _, f := range s.RuntimeFiles(t) {
+			if f.Role == "data" && !f.Node.Dir {
+				cands = append(cands, f.Dest)
+			}
+		}
+		cands = append(cands, "p/a.txt", "p/x0.txt")
+		return "filehas", lib.Pick(r, []string{"ok", "ok", "yes", "no"}) + " " + lib.Pick(r, cands)
 	case 0, 1, 2, 3:
 		return "passif", lib.Pick(r, []string{"ok", "ok", "yes", "two"})
 	case 4:
@@ -287,7 +297,30 @@ func randomEdit(r *lib.Rng, s *e2e.C11Spec, n int) e2e.Edit {
 	for attempt := 0; attempt < 40; attempt++ {
 		switch k := lib.Pick(r, []string{"data-content", "data-content", "data-content", "unrelated", "noop", "test-cmd", "test-cmd", "cmd-form",
 			"src-same-binary", "src-content", "gen-content", "gen-rename", "gen-rename", "dir-entry-rename", "dir-entry-rename", "dir-content",
-			"data-list", "comment", "dir-entry-move"}); k {
+			"data-list", "comment", "dir-entry-move", "data-permute", "data-permute", "data-permute", "gen-swap"}); k {
+		case "data-permute": // the contents of the data files are permuted among them: the same contents, at other names
+			fs := []string{"a.txt", "b.txt", "c.txt"}
+			lib.Shuffle(r, fs)
+			if r.Chance(1, 2) {
+				fs = fs[:2]
+			}
+			old := []string{}
+			for _, f := range fs {
+				old = append(old, s.Files[f])
+			}
+			changed := false
+			for i, f := range fs { // swap of two / rotation of three
+				s.Files[f] = old[(i+1)%len(fs)]
+				changed = changed || s.Files[f] != old[i]
+			}
+			if changed {
+				return e2e.Edit{Kind: k, What: fmt.Sprintf("contents of %v rotated", fs)}
+			}
+		case "gen-swap": // the outputs of two data dependencies exchange their contents
+			if len(s.Gens) >= 2 && s.Gens[0].Content != s.Gens[1].Content {
+				s.Gens[0].Content, s.Gens[1].Content = s.Gens[1].Content, s.Gens[0].Content
+				return e2e.Edit{Kind: k, What: s.Gens[0].Name + " <-> " + s.Gens[1].Name}
+			}
 		case "data-content":
 			f := lib.Pick(r, []string{"a.txt", "b.txt", "c.txt"})
 			s.Files[f] = flipWord(r, s.Files[f], n)
@@ -520,6 +553,42 @@ func scriptedPlans(thorough bool) []plan {
 	}))
 	ps[len(ps)-1].initial.Files["x0.txt"] = "nope\n"
 
+	// ---- permutations of contents among the runtime files: the same multiset of contents, at other files ----
+	swapFiles := func(fs ...string) func(*e2e.C11Spec) {
+		return func(s *e2e.C11Spec) {
+			old := []string{}
+			for _, f := range fs {
+				old = append(old, s.Files[f])
+			}
+			for i, f := range fs {
+				s.Files[f] = old[(i+1)%len(fs)]
+			}
+		}
+	}
+	swapGens := func(s *e2e.C11Spec) { s.Gens[0].Content, s.Gens[1].Content = s.Gens[1].Content, s.Gens[0].Content }
+	for _, cache := range []bool{true, false} {
+		if !cache && !thorough {
+			continue
+		}
+		// a.txt = "ok", b.txt = "no", c.txt = "yes"; g0 = "ok", g1 = "no"; fg0 = filegroup(a.txt, b.txt)
+		ps = append(ps, scripted("permute", cache, []*e2e.C11Test{
+			tst("t0", "filehas", "ok p/a.txt", "a.txt", "b.txt"),
+			tst("t1", "filehas", "ok p/x0.txt", ":g0", ":g1"),
+			tst("t2", "filehas", "ok p/a.txt", ":fg0"),
+			tst("t3", "passif", "ok", "b.txt", "a.txt", "c.txt"), // passes before and after: must still run again
+			tst("t4", "filehas", "yes p/c.txt", "a.txt", "c.txt", "b.txt")}, []scriptStep{
+			{kind: "noop"},
+			{kind: "data-permute", f: swapFiles("a.txt", "b.txt")}, // in place: t0, t2 must run and fail
+			{kind: "noop"}, // and fail again
+			{kind: "data-permute", f: swapFiles("a.txt", "b.txt"), replace: true}, // back
+			{kind: "gen-swap", f: swapGens},                                       // t1 must run and fail
+			{kind: "gen-swap", f: swapGens},
+			{kind: "data-permute", f: swapFiles("a.txt", "b.txt", "c.txt")},                // a=no b=yes c=ok: t0, t4 fail
+			{kind: "data-permute", f: swapFiles("a.txt", "b.txt", "c.txt"), replace: true}, // a=yes b=ok c=no
+			{kind: "data-permute", f: swapFiles("a.txt", "c.txt")},                         // a=no b=ok c=yes
+		}))
+	}
+
 	// ---- test arguments: a run with arguments is neither stored nor may it be the source of a reused result ----
 	good, bad := []string{"good"}, []string{"bad"}
 	for _, cache := range []bool{false, true} {
@@ -588,16 +657,18 @@ func scriptedPlans(thorough bool) []plan {
 			dict("t1", alt("dbg", "passif", "ok"), alt("cover", "passif", "yes")), // opt: neither active nor fallback -> highest name (dbg)
 			tst("t2", "passif", "ok", "a.txt", "c.txt")}, []scriptStep{
 			{kind: "noop"},
-			{kind: "test-cmd-inactive", f: setAlt(0, 1, "passif", "nope")},                // dbg edited while opt runs: still cached
-			{kind: "test-cmd-active", f: setAlt(0, 0, "passif", "nope")},                  // opt edited: must run, fails
-			{kind: "config", config: "dbg"},                                                 // dbg command (nope): runs, fails
-			{kind: "test-cmd-active", f: setAlt(0, 1, "passif", "yes"), config: "dbg"},    // dbg edited while dbg runs: passes
-			{kind: "test-cmd-inactive", f: setAlt(0, 0, "passif", "ok"), config: "dbg"},   // opt edited while dbg runs: cached
-			{kind: "noop"},                                                                  // opt again (ok): passes
-			{kind: "test-cmd-active", f: setAlt(1, 0, "passif", "nope")},                  // t1: dbg is its effective command under opt
-			{kind: "test-cmd-inactive", f: setAlt(1, 1, "fail", "")},                      // t1: cover is not
+			{kind: "test-cmd-inactive", f: setAlt(0, 1, "passif", "nope")},              // dbg edited while opt runs: still cached
+			{kind: "test-cmd-active", f: setAlt(0, 0, "passif", "nope")},                // opt edited: must run, fails
+			{kind: "config", config: "dbg"},                                             // dbg command (nope): runs, fails
+			{kind: "test-cmd-active", f: setAlt(0, 1, "passif", "yes"), config: "dbg"},  // dbg edited while dbg runs: passes
+			{kind: "test-cmd-inactive", f: setAlt(0, 0, "passif", "ok"), config: "dbg"}, // opt edited while dbg runs: cached
+			{kind: "noop"}, // opt again (ok): passes
+			{kind: "test-cmd-active", f: setAlt(1, 0, "passif", "nope")},                                                         // t1: dbg is its effective command under opt
+			{kind: "test-cmd-inactive", f: setAlt(1, 1, "fail", "")},                                                             // t1: cover is not
 			{kind: "cmd-form", f: func(s *e2e.C11Spec) { s.Tests[0].Op, s.Tests[0].Arg, s.Tests[0].Cmds = "passif", "ok", nil }}, // dict -> the same plain string: cached
-			{kind: "cmd-form", f: func(s *e2e.C11Spec) { s.Tests[2].Cmds = []e2e.C11Alt{alt("dbg", "fail", ""), alt("opt", "passif", "ok")} }},
+			{kind: "cmd-form", f: func(s *e2e.C11Spec) {
+				s.Tests[2].Cmds = []e2e.C11Alt{alt("dbg", "fail", ""), alt("opt", "passif", "ok")}
+			}},
 			{kind: "test-cmd-active", f: setAlt(2, 1, "passif", "nope")},
 		}))
 	}
@@ -636,6 +707,9 @@ func coqCmd(op, arg string) string {
 		return lib.App("TArgIs", lib.Str(arg))
 	case "argisnot":
 		return lib.App("TArgIsNot", lib.Str(arg))
+	case "filehas":
+		w, dest := e2e.C11FileHasArg(arg)
+		return lib.App("TFileHas", lib.Str(dest), lib.Str(w))
 	}
 	return "TFail"
 }
@@ -681,13 +755,21 @@ func reportOf(o e2e.C11Outcome) string {
 
 // contentStreams is what a content-only digest of the test directory can distinguish: per destination in
 // order, the file content or the concatenated contents of a directory's files.
-func namesOnlyDifference(a, b []e2e.C11RFile) (sameStreams, sameDests, dirNamesDiffer bool) {
+func namesOnlyDifference(a, b []e2e.C11RFile) (sameStreams, sameDests, dirNamesDiffer, permuted bool) {
 	da, db := dedup(a), dedup(b)
 	if len(da) != len(db) {
-		return false, false, false
+		return false, false, false, false
 	}
 	sameStreams, sameDests = true, true
+	sa, sb := []string{}, []string{}
+	defer func() {
+		// the same multiset of content streams, at the same destinations, but not the same content at every position
+		sort.Strings(sa)
+		sort.Strings(sb)
+		permuted = sameDests && !sameStreams && fmt.Sprintf("%q", sa) == fmt.Sprintf("%q", sb)
+	}()
 	for i := range da {
+		sa, sb = append(sa, stream(da[i].Node)), append(sb, stream(db[i].Node))
 		if stream(da[i].Node) != stream(db[i].Node) {
 			sameStreams = false
 		}
@@ -743,8 +825,11 @@ func classify(h history, i int, name string) string {
 			if pt.Name != name || pt.EffectiveCmd(h.Steps[j].Inv.Config, "") != ct.EffectiveCmd(h.Steps[i].Inv.Config, "") || fmt.Sprint(pt.Data) != fmt.Sprint(ct.Data) {
 				continue
 			}
-			sameStreams, sameDests, dirNames := namesOnlyDifference(h.Steps[j].Spec.RuntimeFiles(pt), cur.RuntimeFiles(ct))
+			sameStreams, sameDests, dirNames, permuted := namesOnlyDifference(h.Steps[j].Spec.RuntimeFiles(pt), cur.RuntimeFiles(ct))
 			switch {
+			case permuted:
+				// NOT a known finding: RuntimeHash combines the per-file digests in iteration order, so this cannot happen
+				return "runtime-file-contents-permuted-same-multiset"
 			case sameStreams && !sameDests:
 				return "data-dependency-output-renamed-same-content"
 			case sameStreams && sameDests && dirNames:
@@ -772,7 +857,9 @@ func main() {
 		c.Rule("generated repositories of 1-3 gentest targets (binary = concatenation of sources; data = local files, a local directory, outputs of genrules, " +
 			"also two sources for one destination; test command from a closed language: passif W / binok W / exists PATH / true / fail) under edit histories " +
 			"(data content flips pass<->fail, unrelated edits, test command changes, source changes with identical and with different binary, renames of a data " +
-			"dependency's output and of directory entries with the same content, data list changes, comments, reverts, deleting plz-out), with and without a " +
+			"dependency's output and of directory entries with the same content, data list changes, comments, reverts, deleting plz-out; PERMUTATIONS of the contents " +
+			"among the data files a.txt/b.txt/c.txt (swap of two, rotation of three, in place and by replacement - also seen through a filegroup) and among the outputs of " +
+			"two data dependencies, with the command filehas W DEST = `grep -qs W DEST`, which depends on WHICH file holds a content), with and without a " +
 			"directory cache; also: data through filegroups of source files (outputs hard-linked to the sources) with changed files rewritten IN PLACE (same inode) " +
 			"or replaced (new inode); invocations with test arguments (`plz test //p:all -- good|bad`, commands argis W / argisnot W depend on them) mixed with plain ones; " +
 			"test_cmd as a per-config dict (opt/dbg/cover) with edits of the active and of inactive configs' commands, `-c dbg`, and dict <-> string form changes; " +
